@@ -2,11 +2,14 @@
 (* C16 case generator (U2, constant level): every combination of field length classes
    {0, 1, typical, max, max+1} x versions x entry types x algorithm ids for the CT structures,
    each with the layout CTCodec.tla demands (or the demanded error), and the verification
-   matrix object x log key type x mutation with the verdict the ideal-signature rule demands.
+   matrix object x log key type x mutation with the verdict the ideal-signature rule demands, and the
+   verifier histories: every short sequence of verify operations on one verifier object per key type.
    Output: ctcodec_cases.ndjson (one JSON record per case) next to the spec.              *)
 EXTENDS CTCodec, Json, SequencesExt
 
-CONSTANT Extra      \* further length classes for the 16-bit fields (thorough tier)
+CONSTANTS Extra,    \* further length classes for the 16-bit fields (thorough tier)
+          SeqFull,  \* verifier histories: every sequence of 1..SeqFull operations over the whole alphabet
+          SeqRed    \* ... and every sequence of SeqFull+1..SeqRed operations over ReducedOps
 
 TS0 == <<0, 0, 0, 0, 0, 0, 0, 0>>
 TSM == <<255, 255, 255, 255, 255, 255, 255, 255>>
@@ -88,10 +91,34 @@ VCase(obj, key, m) ==
 VCasesOK == UNION { { VCase(c[1], c[2], m) : m \in MutsOf(c[1], c[2]) } :
                     c \in {"sct-cert", "sct-precert", "sth"} \X {"P", "R"} }
 
-AllCases == SetToSeq(DSCases) \o SetToSeq(SCTCases) \o SetToSeq(LeafCases) \o SetToSeq(ChainCases)
+----------------------------------------------------------------------------
+(* verifier histories: per key type one record with the operation table (every operation with the bytes
+   that were signed, the presented object, the signing key, the algorithm ids and the signature mutation)
+   and every sequence of operation indices to be applied to ONE ct.SignatureVerifier *)
+Other(key) == IF key = "P" THEN "R" ELSE "P"
+SigAlgOf(key) == IF key = "P" THEN 3 ELSE 1
+HOp(key, op) ==
+  LET m    == op.mut
+      gen  == IF op.obj = "sth" THEN BaseSTH ELSE BaseSCT(IF op.obj = "sct-cert" THEN 0 ELSE 1)
+      lay  == IF op.obj = "sth" THEN STHSigInput(gen) ELSE SCTSigInput(gen)
+      skey == CASE m = "foreign-key" -> key \o "other" [] m = "foreign-type" -> Other(key) [] OTHER -> key
+      sa   == SigAlgOf(IF m = "foreign-type" THEN Other(key) ELSE key)
+  IN  [obj |-> op.obj, mut |-> m, demand |-> VerifyDemand(m), signed |-> Want(lay), presented |-> MutVal(gen, m),
+       sigmut |-> SigMut(m), signkey |-> skey,
+       algs |-> CASE m = "alg-sig" -> <<4, 4 - sa>> [] m = "alg-unsup" -> <<4, 2>> [] m = "alg-hash" -> <<5, sa>>
+                  [] OTHER -> <<4, sa>>]
+
+SeqsOver(alphabet, lo, hi) == UNION { [1..k -> alphabet] : k \in lo..hi }
+HSeqs == SeqsOver(1..Len(VerifierOps), 1, SeqFull) \cup SeqsOver(ReducedOps, SeqFull + 1, SeqRed)
+HCase(key) == [kind |-> "vseq", key |-> key, ops |-> [i \in 1..Len(VerifierOps) |-> HOp(key, VerifierOps[i])],
+               seqs |-> SetToSeq(HSeqs)]
+HCases == <<HCase("P"), HCase("R")>>
+
+AllCases == HCases \o SetToSeq(DSCases) \o SetToSeq(SCTCases) \o SetToSeq(LeafCases) \o SetToSeq(ChainCases)
             \o SetToSeq(SigInCases) \o SetToSeq(STHCases) \o SetToSeq(VCasesOK)
 
 ASSUME ndJsonSerialize("ctcodec_cases.ndjson", AllCases)
 ASSUME PrintT(<<"CASES", Len(AllCases), Cardinality(DSCases), Cardinality(SCTCases), Cardinality(LeafCases),
-                Cardinality(ChainCases), Cardinality(SigInCases), Cardinality(STHCases), Cardinality(VCasesOK)>>)
+                Cardinality(ChainCases), Cardinality(SigInCases), Cardinality(STHCases), Cardinality(VCasesOK),
+                Len(VerifierOps), Cardinality(HSeqs)>>)
 =============================================================================
